@@ -406,4 +406,102 @@ Section Dup.
                   ltac:(lia) Hss (recv_init_RS sc rc F Hwf Hblk Hws)) as (fuel & Hfin).
       exists fuel. exact Hfin.
   Qed.
+
+  (** * Within the receiver's capacity nothing is lost (the positive side of finding D8)
+
+      If the receiver's buffer takes a whole window burst ([s_rep] copies of [windowsize] blocks), the
+      capacity rule of [pair_step_cap] never drops anything: the run is the undisturbed one, and the
+      transfer completes - for every file, block size, window size and repeat counts. *)
+
+  Lemma window_tx_length : forall rep a elems, length (window_tx rep a elems) = (rep * length elems)%nat.
+  Proof.
+    intros rep a elems. revert a. induction elems as [|c r IH]; intros a; cbn [window_tx length]; [lia|].
+    rewrite app_length, repeat_length, IH. lia.
+  Qed.
+
+  Lemma sent_bytes_length : forall l, (length (sent_bytes l) <= length l)%nat.
+  Proof.
+    intros l. unfold sent_bytes. rewrite map_length. induction l as [|x l IH]; cbn [filter length]; [lia|].
+    destruct (negb (s_failed x)); cbn [length]; lia.
+  Qed.
+
+  Lemma burst_bound : forall st e st' out, SInv sc F st -> send_step sc st e = (st', out) ->
+    (length (sent_bytes out) <= rsn * N.to_nat ws)%nat.
+  Proof.
+    intros st e st' out Hi H. pose proof (sent_bytes_length out) as Hl.
+    destruct (send_step_spec _ _ _ _ _ _ Hwf Hi H) as [Hi' _].
+    destruct (send_step_burst_shape sc F st e st' out Hwf Hsf Hi H) as [->|[->|[_ ->]]].
+    - cbn. lia.
+    - rewrite window_tx_length in Hl. pose proof (outstanding_le_ws sc F st' Hi') as Hw. unfold lenN in Hw.
+      assert (length (w_elems (s_w st')) <= N.to_nat ws)%nat by lia. nia.
+    - cbn in *. pose proof Hwf as (_ & Hw & _). nia.
+  Qed.
+
+  Lemma firstn_all_le : forall {A} (l : list A) n, (length l <= n)%nat -> firstn n l = l.
+  Proof. intros A l n H. apply firstn_all2. exact H. Qed.
+
+  Section Cap.
+  Variable cap : nat.
+  Hypothesis Hcap : (rsn * N.to_nat ws <= cap)%nat.
+
+  Lemma cap_step_eq : forall p, SInv sc F (p_s p) -> pair_step_cap sc rc cap p = pair_step sc rc [] [] p.
+  Proof.
+    intros p Hi. unfold pair_step_cap, pair_step.
+    destruct (ch_q (p_sr p)) as [|d q]; destruct (r_running (p_r p)); try reflexivity.
+    all: destruct (ch_q (p_rs p)) as [|d2 q2]; destruct (s_running (p_s p)); try reflexivity.
+    all: try (destruct (send_step sc (p_s p) (EvDgram 0 d2)) as [s' out] eqn:E;
+              rewrite (firstn_all_le _ _ (Nat.le_trans _ _ _ (burst_bound _ _ _ _ Hi E) Hcap)); reflexivity).
+    all: try (destruct (send_step sc (p_s p) (EvFail (s_tmo sc))) as [s' out] eqn:E;
+              rewrite (firstn_all_le _ _ (Nat.le_trans _ _ _ (burst_bound _ _ _ _ Hi E) Hcap)); reflexivity).
+  Qed.
+
+  Lemma step_keeps_SInv : forall p p', SInv sc F (p_s p) -> pair_step sc rc [] [] p = Some p' -> SInv sc F (p_s p').
+  Proof.
+    intros p p' Hi H. unfold pair_step in H.
+    destruct (ch_q (p_sr p)) as [|d q]; destruct (r_running (p_r p)).
+    all: try (destruct (recv_step rc (p_r p) (EvDgram 0 d)) as [r' out] eqn:E; inversion H; subst; exact Hi).
+    all: destruct (ch_q (p_rs p)) as [|d2 q2]; destruct (s_running (p_s p)).
+    all: try (destruct (send_step sc (p_s p) (EvDgram 0 d2)) as [s' out] eqn:E; inversion H; subst; cbn [p_s];
+              exact (proj1 (send_step_spec _ _ _ _ _ _ Hwf Hi E))).
+    all: try (destruct (send_step sc (p_s p) (EvFail (s_tmo sc))) as [s' out] eqn:E; inversion H; subst; cbn [p_s];
+              exact (proj1 (send_step_spec _ _ _ _ _ _ Hwf Hi E))).
+    all: try (destruct (recv_step rc (p_r p) (EvFail (r_tmo rc))) as [r' out] eqn:E; inversion H; subst; exact Hi).
+    all: try discriminate.
+  Qed.
+
+  Lemma cap_run_eq : forall fuel p, SInv sc F (p_s p) -> pair_run_cap sc rc cap fuel p = pair_run sc rc [] [] fuel p.
+  Proof.
+    intros fuel. induction fuel as [|fuel IH]; intros p Hi; cbn [pair_run_cap pair_run]; [reflexivity|].
+    rewrite (cap_step_eq p Hi). destruct (pair_step sc rc [] [] p) as [p'|] eqn:E; [|reflexivity].
+    apply IH. eapply step_keeps_SInv; eassumption.
+  Qed.
+
+  Lemma cap_init_eq : pair_init_cap sc rc cap F = pair_init sc rc [] F /\ SInv sc F (p_s (pair_init sc rc [] F)).
+  Proof.
+    unfold pair_init_cap, pair_init. destruct (send_init sc F) as [s0 out0] eqn:E0.
+    destruct (send_init_spec _ _ _ _ Hwf E0) as [Hi0 _]. split; [|exact Hi0].
+    unfold send_init in E0. rewrite Hck in E0.
+    set (st0 := mk_sstate 1 (window_new (s_ws sc) (s_blk sc) (file_for_read F)) true 0 0 0 SInWindow 1) in *.
+    assert (Hc0 : SCore sc F st0).
+    { unfold SCore, st0. cbn [s_w s_bn s_abs s_filled s_retry window_new w_elems w_size w_chunk w_file
+                              file_for_read f_mode f_rest length chunks_from].
+      rewrite lenN_nil. destruct Hwf as (Hb & Hw1 & Hw2). pose proof (nblk_pos (s_blk sc) F).
+      repeat split; try reflexivity; try lia. }
+    destruct (outer_top_outR st0 s0 out0 Hc0) as [Hss Hout]; try exact E0.
+    - intros _. unfold st0. cbn [s_w window_new w_elems]. rewrite lenN_nil. destruct Hwf as (_ & ? & _). lia.
+    - discriminate.
+    - rewrite firstn_all_le; [reflexivity|].
+      pose proof (sent_bytes_length out0) as Hl. rewrite Hout, window_tx_length in Hl.
+      pose proof (outstanding_le_ws sc F s0 Hi0) as Hw. unfold lenN in Hw.
+      assert (length (w_elems (s_w s0)) <= N.to_nat ws)%nat by lia. rewrite Hout. nia.
+  Qed.
+
+  Theorem cosim_cap_sufficient : exists fuel,
+    let p := pair_run_cap sc rc cap fuel (pair_init_cap sc rc cap F) in
+    r_phase (p_r p) = RDone OutOk /\ written_bytes (w_file (r_w (p_r p))) = F /\ s_phase (p_s p) = SDone OutOk.
+  Proof.
+    destruct cosim_perfect_dup as (fuel & Hfin). exists fuel. cbv zeta.
+    destruct cap_init_eq as [-> Hi]. rewrite (cap_run_eq fuel _ Hi). exact Hfin.
+  Qed.
+  End Cap.
 End Dup.
